@@ -158,7 +158,7 @@ def run_one(ctl: explorer.Ctl, cfg: Dict[str, Any]) -> Dict[str, Any]:
     viol = []
     if status != "ok":
         obs["outcome"] = status
-        viol.append({"sig": {"class": "harness-run-" + status}, "msg": f"execution ended with {status}: {val!r}"})
+        viol.append({"sig": {"class": "harness-run-" + status}, "msg": f"execution ended with {status}: {core.clean_repr(val)}"})
         obs["violations"] = viol
         return obs
     if info.get("spawned") != 1:
@@ -282,7 +282,7 @@ def run_reentry(ctl: explorer.Ctl, cfg: Dict[str, Any]) -> Dict[str, Any]:
     loop.abandon()
     viol = []
     if status != "ok":
-        return {"outcome": status, "violations": [{"sig": {"class": "did-not-finish", "part": "reentry"}, "msg": f"cfg={cfg}: {status} {val!r}"}]}
+        return {"outcome": status, "violations": [{"sig": {"class": "did-not-finish", "part": "reentry"}, "msg": f"cfg={cfg}: {status} {core.clean_repr(val)}"}]}
     d2 = [dump_msg(m) for m in got[1]]
     exp2 = reference(second)
     norm = lambda m: {k: v for k, v in m.items() if v is not None}
